@@ -594,7 +594,7 @@ func main() {
 	fixed := &fixedBodies{seen: map[int]string{}}
 	var fixed404Disabled = &fixedBodies{seen: map[int]string{}}
 
-	nWorlds := r.N(20, 800)
+	nWorlds := r.N(60, 1600)
 	perWorld := 250
 	for wi := 0; wi < nWorlds; wi++ {
 		rng := r.Rand(1, uint64(wi))
@@ -927,7 +927,7 @@ func burstChild(in []byte) []byte {
 }
 
 func rateArm(r *mon.Run) {
-	trials := r.N(8, 200)
+	trials := r.N(12, 300)
 	window := time.Second
 	inputs := make([][]byte, trials)
 	for t := range inputs {
@@ -984,10 +984,10 @@ func rateArm(r *mon.Run) {
 	}
 
 	// sustained arm: admitted <= rate * (floor(elapsed/window) + 2)
-	long := r.N(1, 4)
+	long := r.N(1, 6)
 	for t := 0; t < long; t++ {
 		rng := r.Rand(3, uint64(t))
-		rate := []int{3, 10, 0, 1}[t%4]
+		rate := []int{3, 10, 0, 1, 5, 2}[t%6]
 		eff := rate
 		if eff == 0 {
 			eff = 20
